@@ -368,7 +368,7 @@ class C08(ModelCheck):
     assumptions = ["delivery inside Home Assistant (bus, MQTT client, HTTP view) is trusted; fakes replace only that boundary", "payload keys avoid reserved trigger keyword names"]
 
     def n_random(self, tier):
-        return {"quick": 800, "thorough": 30000}[tier]
+        return {"quick": 1600, "thorough": 30000}[tier]
 
     def gen(self, R):
         return gen(R)
